@@ -1,7 +1,12 @@
 import Lemmas.Allocate
+import Lemmas.SpecConserve
+import Lemmas.Portions
+import Lemmas.SpecFloor
 /-! C03 — a send moves exactly what it says.  Part 1: the funding algebra (`internal/machine/funding.go`,
-`allotment.go`) that every send is built from.  Part 2 (`Props/C03Spec.lean` once proved) lifts these through
-`Spec.evalSource` / `Spec.evalDest`. -/
+`allotment.go`) that every send is built from.  Part 2 (second half of this file): the same facts lifted through
+the source-level semantics `Spec` (`evalSource`, `takeFromSource`, `evalDest`, `evalSend`, `run`): `send_exact`,
+`send_exact_allot`, `send_all_exact`, `dest_conserves`, `source_cap_respected`, `postings_nonneg`,
+`ordered_sources_drain`. -/
 namespace C03
 open Num
 
@@ -55,5 +60,234 @@ example : allocate [⟨1, 3⟩, ⟨1, 3⟩, ⟨1, 3⟩] 10 = [4, 3, 3] := by dec
 example : (ratSum [⟨1, 3⟩, ⟨1, 3⟩, ⟨1, 3⟩]).1 = (ratSum [⟨1, 3⟩, ⟨1, 3⟩, ⟨1, 3⟩]).2 := by decide
 example : take [⟨"a", 5⟩, ⟨"b", 7⟩] 8 = some ([⟨"a", 5⟩, ⟨"b", 3⟩], [⟨"b", 4⟩]) := by decide
 example : take [⟨"a", 5⟩] 8 = none := by decide
+
+/-! ## Part 2 — lifted to `Spec` -/
+
+/-- `assemble` (`OP_FUNDING_ASSEMBLE`): all fundings carry the asset of the last one, the parts are concatenated
+left to right; totals, per-account amounts and non-negativity are those of the pieces -/
+theorem assemble_facts {fs : List Fund} {r : Fund} (h : assemble fs = .ok r) :
+    (∃ l, fs.getLast? = some l ∧ r.asset = l.asset) ∧ (∀ f ∈ fs, f.asset = r.asset) ∧
+    r.parts = fs.foldl (fun acc f => concat acc f.parts) [] ∧
+    total r.parts = (fs.map (fun f => total f.parts)).sum ∧
+    (∀ x, amtOf r.parts x = (fs.map (fun f => amtOf f.parts x)).sum) ∧
+    ((∀ f ∈ fs, NonNeg f.parts) → NonNeg r.parts) :=
+  ⟨(assemble_ok h).1, (assemble_ok h).2.1, (assemble_ok h).2.2, assemble_total h, assemble_amtOf h,
+    assemble_nonneg h⟩
+
+/-- the two-funding form used by destinations (`kept` put back in front of the remainder) -/
+theorem assemble_two {k : Fund} {a : Asset} {rem : Parts} {r : Fund} (h : assemble [k, ⟨a, rem⟩] = .ok r) :
+    r.asset = a ∧ k.asset = a ∧ r.parts = concat k.parts rem := assemble_pair h
+
+/-- whatever a source provides, no part of it is negative -/
+theorem source_parts_nonneg {env : VEnv} {asset : Asset} {s : Source} {b b' : Bal} {f : Fund} {fb : Option Acct}
+    (h : evalSource env asset s b = .ok (f, fb, b')) : NonNeg f.parts :=
+  evalSource_nonneg env asset s b f fb b' h
+
+theorem sources_parts_nonneg {env : VEnv} {asset : Asset} {ss : SourceList} {b b' : Bal} {fs : List Fund}
+    {fb : Option Acct} (h : evalSources env asset ss b = .ok (fs, fb, b')) : ∀ f ∈ fs, NonNeg f.parts :=
+  evalSources_nonneg env asset ss b fs fb b' h
+
+/-- `max m from s` never provides more than `m` (exactly `min m (what s provides)`); when `s` is unbounded
+(world / unbounded overdraft: it has a fallback account) it provides exactly `m` -/
+theorem source_cap_respected {env : VEnv} {asset : Asset} {cap : Expr} {s : Source} {b b' : Bal} {f : Fund}
+    {fb : Option Acct} {ma : Asset} {mn : Int}
+    (h : evalSource env asset (.maxed cap s) b = .ok (f, fb, b')) (hm : evalMon env cap = .ok (ma, mn)) :
+    ∃ f0 fb0 b1, evalSource env asset s b = .ok (f0, fb0, b1) ∧ 0 ≤ mn ∧ f.asset = ma ∧ total f.parts ≤ mn ∧
+      (fb0 = none → total f.parts = min mn (total f0.parts)) ∧ (fb0 ≠ none → total f.parts = mn) := by
+  obtain ⟨f0, fb0, b1, ma', mn', hs, hm', hmn, ha, h1, h2⟩ := evalSource_maxed_total h
+  rw [hm] at hm'
+  simp only [Except.ok.injEq, Prod.mk.injEq] at hm'
+  obtain ⟨rfl, rfl⟩ := hm'
+  refine ⟨f0, fb0, b1, hs, hmn, ha, ?_, h1, h2⟩
+  cases hfb : fb0 with
+  | none => have := h1 hfb; omega
+  | some w => have := h2 (by rw [hfb]; simp); omega
+
+/-- `TakeFromSource` is exact: the funding it returns totals the requested amount (which is non-negative), in
+the requested asset; from a bounded source this requires the source to hold that much -/
+theorem takeFromSource_exact {fb : Option Acct} {f : Fund} {ma : Asset} {mn : Int} {b b' : Bal} {t : Fund}
+    (hf : NonNeg f.parts) (h : takeFromSource fb f ma mn b = .ok (t, b')) :
+    total t.parts = mn ∧ 0 ≤ mn ∧ NonNeg t.parts ∧ t.asset = ma ∧ (fb = none → mn ≤ total f.parts) := by
+  have h1 := Num.takeFromSource_exact hf h
+  refine ⟨h1.1, h1.2.1, h1.2.2.1, h1.2.2.2, ?_⟩
+  intro hfb; subst hfb
+  exact (takeFromSource_none_exact hf h).2.2.1
+
+/-- from an unbounded source: what the funding lacks comes from the fallback account, nothing more -/
+theorem takeFromSource_fallback {w : Acct} {f : Fund} {ma : Asset} {mn : Int} {b b' : Bal} {t : Fund}
+    (hf : NonNeg f.parts) (h : takeFromSource (some w) f ma mn b = .ok (t, b')) :
+    amtOf t.parts w = amtOf (takeMax f.parts mn).1 w + (if mn > total f.parts then mn - total f.parts else 0) :=
+  (takeFromSource_some_exact hf h).2.2.2.2
+
+/-- `dest_conserves`: a destination appends postings (all non-negative, all in the funding's asset) and hands
+back a funding (what is `kept`); emitted plus handed back is exactly what was received -/
+theorem dest_conserves {env : VEnv} {d : Dest} {f r : Fund} {st st' : St}
+    (h : evalDest env d f st = .ok (r, st')) (hf : NonNeg f.parts) :
+    ∃ new, st'.postings = st.postings ++ new ∧ (∀ p ∈ new, 0 ≤ p.amt ∧ p.asset = f.asset) ∧
+      sumAmt new + total r.parts = total f.parts ∧ NonNeg r.parts ∧ r.asset = f.asset :=
+  evalDest_conserves env d f r st st' h hf
+
+theorem keptOrDest_conserves {env : VEnv} {kd : KeptOrDest} {f r : Fund} {st st' : St}
+    (h : evalKD env kd f st = .ok (r, st')) (hf : NonNeg f.parts) :
+    ∃ new, st'.postings = st.postings ++ new ∧ (∀ p ∈ new, 0 ≤ p.amt ∧ p.asset = f.asset) ∧
+      sumAmt new + total r.parts = total f.parts ∧ NonNeg r.parts ∧ r.asset = f.asset :=
+  evalKD_conserves env kd f r st st' h hf
+
+/-- the capped entries of an ordered destination: what they emit plus what is left (`cur'`) is what came in -/
+theorem caps_conserve {env : VEnv} {cs : CapList} {kt kt' : Int} {cur cur' : Fund} {st st' : St}
+    (h : evalCaps env cs kt cur st = .ok (kt', cur', st')) (hf : NonNeg cur.parts) :
+    ∃ new, st'.postings = st.postings ++ new ∧ (∀ p ∈ new, 0 ≤ p.amt ∧ p.asset = cur.asset) ∧
+      sumAmt new + total cur'.parts = total cur.parts ∧ NonNeg cur'.parts ∧ cur'.asset = cur.asset :=
+  evalCaps_conserves env cs kt kt' cur cur' st st' h hf
+
+/-- `dest_cap_respected`: `max [A m] to d` inside an ordered destination hands `d` exactly `min m (what is left)`,
+so the postings `d` emits never exceed the cap -/
+theorem dest_cap_respected {env : VEnv} {cap : Expr} {kd : KeptOrDest} {rest : CapList} {kt kt' : Int}
+    {cur cur' : Fund} {st st' : St} {ma : Asset} {mn : Int}
+    (h : evalCaps env (.cons cap kd rest) kt cur st = .ok (kt', cur', st')) (hm : evalMon env cap = .ok (ma, mn))
+    (hf : NonNeg cur.parts) :
+    ∃ k st1 new, evalKD env kd ⟨cur.asset, (takeMax cur.parts mn).1⟩ st = .ok (k, st1) ∧
+      total (takeMax cur.parts mn).1 = min mn (total cur.parts) ∧
+      st1.postings = st.postings ++ new ∧ sumAmt new ≤ mn ∧ 0 ≤ mn := by
+  obtain ⟨ma', mn', k, st1, m, hm', hmn, _, hk, _, _, _⟩ := evalCaps_cons_inv h
+  rw [hm] at hm'
+  simp only [Except.ok.injEq, Prod.mk.injEq] at hm'
+  obtain ⟨rfl, rfl⟩ := hm'
+  have hle := takeMax_le cur.parts mn hmn hf
+  obtain ⟨new, hp, _, hs, hk', _⟩ :=
+    evalKD_conserves env kd ⟨cur.asset, (takeMax cur.parts mn).1⟩ k st st1 hk (takeMax_nonneg cur.parts mn hf).1
+  have := total_nonneg hk'
+  exact ⟨k, st1, new, hk, hle.2, hp, by simp only at hs; omega, hmn⟩
+
+theorem allot_conserves {env : VEnv} {items : AllotList} {parts : List Int} {cur r : Fund} {st st' : St}
+    (h : evalAllot env items parts cur st = .ok (r, st')) (hf : NonNeg cur.parts) :
+    ∃ new, st'.postings = st.postings ++ new ∧ (∀ p ∈ new, 0 ≤ p.amt ∧ p.asset = cur.asset) ∧
+      sumAmt new + total r.parts = total cur.parts ∧ NonNeg r.parts ∧ r.asset = cur.asset :=
+  evalAllot_conserves env items parts cur r st st' h hf
+
+/-- **`send_exact`**: `send [A n] (source = s  destination = d)` appends postings that are all non-negative, all
+in asset `A`, and add up to `n` minus what the destination keeps (`kept ≥ 0`, handed back to the sources) -/
+theorem send_exact {env : VEnv} {e : Expr} {s : Source} {d : Dest} {st st' : St} {ma : Asset} {mn : Int}
+    (h : evalSend env (.mon e) (.src s) d st = .ok st') (hm : evalMon env e = .ok (ma, mn)) :
+    ∃ new kept, st'.postings = st.postings ++ new ∧ (∀ p ∈ new, 0 ≤ p.amt ∧ p.asset = ma) ∧
+      sumAmt new = mn - kept ∧ 0 ≤ kept ∧ 0 ≤ mn :=
+  let ⟨⟨new, kept, h1, h2, h3, h4⟩, h5⟩ := send_mon_src_ok h hm
+  ⟨new, kept, h1, h2, h3, h4, h5⟩
+
+/-- the allotment-source form `send [A n] (source = { p₁ from s₁ … } destination = d)`: every source delivers
+exactly its share `allocate ps n`, the postings add up to the sum of the shares minus what is kept -/
+theorem send_exact_allot_shares {env : VEnv} {e : Expr} {items : List (PortionSpec × Source)} {d : Dest}
+    {st st' : St} {ma : Asset} {mn : Int}
+    (h : evalSend env (.mon e) (.allot items) d st = .ok st') (hm : evalMon env e = .ok (ma, mn)) :
+    ∃ ps new kept, resolvePortions env (items.map (·.1)) = .ok ps ∧ ps.length = items.length ∧
+      st'.postings = st.postings ++ new ∧ (∀ p ∈ new, 0 ≤ p.amt ∧ p.asset = ma) ∧
+      sumAmt new = (allocate ps mn).sum - kept ∧ 0 ≤ kept ∧ (∀ y ∈ allocate ps mn, 0 ≤ y) := by
+  obtain ⟨ps, hp, _, ⟨new, kept, h1, h2, h3, h4⟩, h5⟩ := send_mon_allot_ok h hm
+  have hlen : ps.length = items.length := by rw [resolvePortions_length hp]; simp
+  have htake : (allocate ps mn).take items.length = allocate ps mn := by
+    apply List.take_of_length_le; rw [allocate_length, hlen]
+  rw [htake] at h3 h5
+  exact ⟨ps, new, kept, hp, hlen, h1, h2, h3, h4, h5⟩
+
+/-- … and the shares add up to `n` whenever the resolved portions add up to one (guaranteed by
+`portions_of_remaining` when a `remaining` entry is present, by `portions_of_checked` for every accepted script) -/
+theorem send_exact_allot {env : VEnv} {e : Expr} {items : List (PortionSpec × Source)} {d : Dest}
+    {st st' : St} {ma : Asset} {mn : Int}
+    (h : evalSend env (.mon e) (.allot items) d st = .ok st') (hm : evalMon env e = .ok (ma, mn))
+    (hone : ∀ ps, resolvePortions env (items.map (·.1)) = .ok ps → PosDen ps ∧ (ratSum ps).1 = (ratSum ps).2) :
+    ∃ new kept, st'.postings = st.postings ++ new ∧ (∀ p ∈ new, 0 ≤ p.amt ∧ p.asset = ma) ∧
+      sumAmt new = mn - kept ∧ 0 ≤ kept := by
+  obtain ⟨ps, new, kept, hp, _, h1, h2, h3, h4, _⟩ := send_exact_allot_shares h hm
+  obtain ⟨hpos, hsum⟩ := hone ps hp
+  rw [allocate_sum_any ps mn hpos hsum (ne_nil_of_sum_one hsum)] at h3
+  exact ⟨new, kept, h1, h2, h3, h4⟩
+
+/-- a portion list with a `remaining` entry resolves to portions adding up to exactly one -/
+theorem portions_of_remaining {env : VEnv} {specs : List PortionSpec} {ps : List Rat'}
+    (h : resolvePortions env specs = .ok ps) (hrem : PortionSpec.remaining ∈ specs) :
+    (ratSum ps).1 = (ratSum ps).2 := resolvePortions_sum_one_of_remaining h hrem
+
+/-- every portion list the compiler accepts resolves to portions adding up to exactly one -/
+theorem portions_of_checked {Γ : TEnv} {env : VEnv} {specs : List PortionSpec} {ps : List Rat'}
+    (hc : checkPortions Γ specs = true) (h : resolvePortions env specs = .ok ps) :
+    (ratSum ps).1 = (ratSum ps).2 := resolvePortions_sum_one_of_checked hc h
+
+/-- … so for an accepted script whose portion denominators are positive (in the text and in the portion
+variables — true of everything the parser and `parsePortion` build) the allotment-source send is exact too -/
+theorem send_exact_allot_checked {Γ : TEnv} {env : VEnv} {e : Expr} {items : List (PortionSpec × Source)} {d : Dest}
+    {st st' : St} {ma : Asset} {mn : Int}
+    (h : evalSend env (.mon e) (.allot items) d st = .ok st') (hm : evalMon env e = .ok (ma, mn))
+    (hc : checkPortions Γ (items.map (·.1)) = true)
+    (hv : ∀ n r, lookupVar env n = some (.portion r) → 0 < r.den)
+    (hk : ∀ r, PortionSpec.const r ∈ items.map (·.1) → 0 < r.den) :
+    ∃ new kept, st'.postings = st.postings ++ new ∧ (∀ p ∈ new, 0 ≤ p.amt ∧ p.asset = ma) ∧
+      sumAmt new = mn - kept ∧ 0 ≤ kept :=
+  send_exact_allot h hm (fun _ hp => ⟨resolvePortions_posDen hp hv hk, resolvePortions_sum_one_of_checked hc hp⟩)
+
+/-- `send [A *] (source = s  destination = d)`: the postings add up to everything the source provides, minus
+what the destination keeps -/
+theorem send_all_exact {env : VEnv} {ae : Expr} {s : Source} {d : Dest} {st st' : St}
+    (h : evalSend env (.all ae) (.src s) d st = .ok st') :
+    ∃ a f fb b1 new kept, evalAsset env ae = .ok a ∧ evalSource env a s st.bal = .ok (f, fb, b1) ∧
+      st'.postings = st.postings ++ new ∧ (∀ p ∈ new, 0 ≤ p.amt ∧ p.asset = f.asset) ∧
+      sumAmt new = total f.parts - kept ∧ 0 ≤ kept := by
+  obtain ⟨a, f, fb, b1, ha, hs, new, kept, h1, h2, h3, h4⟩ := send_all_src_ok h
+  exact ⟨a, f, fb, b1, new, kept, ha, hs, h1, h2, h3, h4⟩
+
+/-- the asset `send [A *]` moves: that of one of the source's account occurrences — `A` for bare / unbounded
+accounts, but the overdraft's asset for `allowing overdraft up to [B n]`.  (`Spec` and the real VM agree that
+`send [USD *] (source = @a allowing overdraft up to [EUR 5] …)` moves EUR when `(a, EUR)` is tracked.) -/
+theorem send_all_asset {env : VEnv} {asset : Asset} {s : Source} {b b' : Bal} {f : Fund} {fb : Option Acct}
+    (h : evalSource env asset s b = .ok (f, fb, b')) :
+    (∃ o ∈ sourceOcc env asset s, o.asset = f.asset) ∧
+    ((∀ o ∈ sourceOcc env asset s, o.asset = asset) → f.asset = asset) :=
+  ⟨evalSource_asset env asset s b b' f fb h, evalSource_asset_eq h⟩
+
+/-- every statement only appends non-negative postings … -/
+theorem stmt_appends_nonneg {env : VEnv} {s : Stmt} {F F' : Full} (h : evalStmt env s F = .ok F') :
+    ∃ new, F'.st.postings = F.st.postings ++ new ∧ ∀ p ∈ new, 0 ≤ p.amt := evalStmt_appends h
+
+/-- … so an accepted run never produces a negative posting -/
+theorem postings_nonneg {P : Script} {req : Request} {store : Store} {r : Result}
+    (h : run P req store = .ok r) : ∀ p ∈ r.postings, 0 ≤ p.amt := run_postings_nonneg h
+
+/-- **`ordered_sources_drain`**: fundings are consumed front to back.  The parts of an ordered source
+`{s₁ … sₙ}` are the concatenation of what `s₁ … sₙ` provide (`assemble_facts`); when an amount is taken out of it
+(`takeLoop`, the loop under `Take` and `TakeMax`), the part at position `j` of what is taken comes from position
+`j` of the funding, never exceeds it, and every EARLIER part (`i < j`) is taken in full: a later source
+contributes only once all earlier ones have given everything they can -/
+theorem ordered_sources_drain (f : Parts) (n : Int) (j : Nat) (hj : j < (takeLoop f n).1.length) :
+    ∃ hjf : j < f.length, ((takeLoop f n).1[j]).acct = f[j].acct ∧ ((takeLoop f n).1[j]).amt ≤ f[j].amt ∧
+      ∀ i (hi : i < j), (takeLoop f n).1[i]'(by omega) = f[i]'(by omega) := takeLoop_drain f n j hj
+
+theorem ordered_sources_drain_take {f t r : Parts} {n : Int} (hn : 0 < n) (h : take f n = some (t, r)) (j : Nat)
+    (hj : j < t.length) :
+    ∃ hjf : j < f.length, (t[j]).acct = f[j].acct ∧ (t[j]).amt ≤ f[j].amt ∧
+      ∀ i (hi : i < j), t[i]'(by omega) = f[i]'(by omega) := take_drain hn h j hj
+
+/-! non-vacuity: concrete sends -/
+
+/-- `send [USD 10] (source = @a  destination = @b)` with 100 on `a` -/
+example : ∃ st', evalSend [] (.mon (.mon (.asset "USD") 10)) (.src (.acct (.acct "a") .none)) (.acct (.acct "b"))
+      ⟨⟨fun _ _ => some 100⟩, []⟩ = .ok st' ∧ st'.postings = [⟨"a", "b", 10, "USD"⟩] := ⟨_, rfl, rfl⟩
+
+/-- `send [USD 10] (source = {@a @b}  destination = {max [USD 3] to @c  remaining kept})`: 3 are sent, 7 kept -/
+example : ∃ st', evalSend [] (.mon (.mon (.asset "USD") 10))
+      (.src (.inorder (.cons (.acct (.acct "a") .none) (.cons (.acct (.acct "b") .none) .nil))))
+      (.inorder (.cons (.mon (.asset "USD") 3) (.to (.acct (.acct "c"))) .nil) .kept)
+      ⟨⟨fun _ _ => some 6⟩, []⟩ = .ok st' ∧ st'.postings = [⟨"a", "c", 3, "USD"⟩] := ⟨_, rfl, rfl⟩
+
+/-- a source allotment with `remaining` -/
+example : ∃ st', evalSend [] (.mon (.mon (.asset "USD") 10))
+      (.allot [(.const ⟨1, 3⟩, .acct (.acct "a") .none), (.remaining, .acct (.acct "b") .none)])
+      (.acct (.acct "c")) ⟨⟨fun _ _ => some 100⟩, []⟩ = .ok st' ∧
+      st'.postings = [⟨"a", "c", 4, "USD"⟩, ⟨"b", "c", 6, "USD"⟩] := ⟨_, rfl, rfl⟩
+
+example : resolvePortions [] [.const ⟨1, 3⟩, .remaining] = .ok [⟨1, 3⟩, ⟨2, 3⟩] := rfl
+
+/-- the excluded point of `send_all_asset`: `send [USD *] (source = @a allowing overdraft up to [EUR 5]
+destination = @b)` on a state that tracks `(a, EUR)` moves 12 EUR (the real VM does the same) -/
+example : ∃ st', evalSend [] (.all (.asset "USD")) (.src (.acct (.acct "a") (.upTo (.mon (.asset "EUR") 5))))
+      (.acct (.acct "b")) ⟨⟨fun _ _ => some 7⟩, []⟩ = .ok st' ∧ st'.postings = [⟨"a", "b", 12, "EUR"⟩] := ⟨_, rfl, rfl⟩
 
 end C03
